@@ -2,28 +2,90 @@
     internal/packages/internal/packagerender/template.go RenderTemplates.
     Executable definitions only; proofs are in CollectorProofs.v.
 
-    The stage ranges over the file map (template.go:50) - Go leaves the order open - executes every
-    `.gotmpl` file and stores the output in the SAME map under the name without the suffix
-    (template.go:62). Executing a template is an oracle that may read the current file map: that is
-    what `getFile`/`getFileGlob` do, they close over pkg.Files (template.go:28-29,
-    internal/transform/file_funcs.go:19-27). That the oracle is a function at all is the purity of the
-    function table, which the C13 check sweeps separately. *)
+    Two models live here.
+    - [render_templates_fixed]: the stage as it is since commit 10a6940. The template paths are
+      collected up front and sorted (template.go:31-39), `getFile`/`getFileGlob` close over a
+      snapshot of the files as packaged (template.go:31-35, 42-43), outputs are written back into
+      pkg.Files afterwards (template.go:63-72).
+    - [render_templates_v0]: the stage before that commit, kept as the record of the defect that was
+      fixed: it ranged over the live map, executed templates in map order and let the file
+      functions read the map that also received the outputs.
+    Paths and file contents are interned as [N]. That executing a template is a function of its
+    inputs at all is the purity of the function table, which the C13 check sweeps separately. *)
 From Coq Require Import List NArith Bool.
 Import ListNotations.
 Local Open Scope N_scope.
 
-Section Templates.
-  (** Paths and file contents are interned. *)
-  Definition fmap := N -> option N.
+(** The file map as a function (what a Go map lookup sees). *)
+Definition fmap := N -> option N.
+Definition fset (m : fmap) (k v : N) : fmap := fun k' => if k' =? k then Some v else m k'.
 
-  Definition fset (m : fmap) (k v : N) : fmap := fun k' => if k' =? k then Some v else m k'.
+(** Observation of a result at one path: None = render failed, Some None = no such file. *)
+Definition at_path (r : option fmap) (k : N) : option (option N) :=
+  match r with None => None | Some m => Some (m k) end.
 
+(** * The stage as implemented now *)
+(** One enumeration of pkg.Files: (path, content) in some map iteration order, paths pairwise
+    different. *)
+Definition filelist := list (N * N).
+
+Fixpoint alookup (k : N) (fs : filelist) : option N :=
+  match fs with
+  | [] => None
+  | (k', v) :: r => if k' =? k then Some v else alookup k r
+  end.
+
+(** Insertion sort by a key; with pairwise different keys (or equal elements) every sorting
+    algorithm returns this list (CollectorProofs.sort_by_perm_invariant). *)
+Section SortBy.
+  Context {A : Type} (key : A -> N).
+  Fixpoint insert_by (x : A) (l : list A) : list A :=
+    match l with
+    | [] => [x]
+    | y :: l' => if key x <? key y then x :: y :: l' else y :: insert_by x l'
+    end.
+  Definition sort_by (l : list A) : list A := fold_right insert_by [] l.
+End SortBy.
+
+(** The content of the map, independent of how it was enumerated: entries ordered by path. *)
+Definition canon (fs : filelist) : filelist := sort_by fst fs.
+
+Section Fixed.
   Variable is_template : N -> bool.       (* packagetypes.IsTemplateFile *)
   Variable strip : N -> N.                (* packagetypes.StripTemplateSuffix *)
-  (** templ.ExecuteTemplate for the template parsed from that path; None = error. *)
+  (** templ.ExecuteTemplate for the template parsed from that path, with the file functions
+      closed over the snapshot [sourceFiles]; None = error. A Go function of a map can depend on
+      its content only, so the oracle receives the content in canonical form. *)
+  Variable exec : N -> filelist -> option N.
+
+  (** template.go:33-39: collect the template paths while ranging over the map, then sort them. *)
+  Definition template_paths (fs : filelist) : list N :=
+    sort_by (fun p => p) (filter is_template (map fst fs)).
+
+  (** Loop body template.go:63-72: execute against the snapshot, write back into pkg.Files. *)
+  Definition fstep (snapshot : filelist) (acc : option fmap) (p : N) : option fmap :=
+    match acc with
+    | None => None
+    | Some m =>
+        match exec p snapshot with
+        | Some out => Some (fset m (strip p) out)
+        | None => None
+        end
+    end.
+
+  Definition render_templates_fixed (fs : filelist) : option fmap :=
+    let snapshot := canon fs in
+    fold_left (fstep snapshot) (template_paths fs) (Some (fun k => alookup k snapshot)).
+End Fixed.
+
+(** * The stage before commit 10a6940 (historical) *)
+Section V0.
+  Variable is_template : N -> bool.
+  Variable strip : N -> N.
+  (** Here executing a template could read the CURRENT file map. *)
   Variable exec : N -> fmap -> option N.
 
-  (** Loop body template.go:50-63; None = the render failed. *)
+  (** Loop body of the old `for path := range pkg.Files`; None = the render failed. *)
   Definition tstep (acc : option fmap) (p : N) : option fmap :=
     match acc with
     | None => None
@@ -37,13 +99,9 @@ Section Templates.
     end.
 
   (** The loop for one iteration order of the map. *)
-  Definition render_templates (order : list N) (m : fmap) : option fmap :=
+  Definition render_templates_v0 (order : list N) (m : fmap) : option fmap :=
     fold_left tstep order (Some m).
-
-  (** Observation of a result at one path: None = render failed, Some None = no such file. *)
-  Definition at_path (r : option fmap) (k : N) : option (option N) :=
-    match r with None => None | Some m => Some (m k) end.
-End Templates.
+End V0.
 
 (** * The F-C13 witness: {a.yaml.gotmpl: getFile "b.yaml"; b.yaml.gotmpl; b.yaml} *)
 Module Witness.
@@ -65,12 +123,17 @@ Module Witness.
              else if k =? B_YAML then Some STATIC else None.
   Definition order1 : list N := [A_TMPL; B_TMPL; B_YAML].
   Definition order2 : list N := [B_TMPL; B_YAML; A_TMPL].
+
+  (** The same package for the fixed stage: two enumerations of the map. *)
+  Definition exec_fixed (p : N) (snapshot : filelist) : option N := exec p (fun k => alookup k snapshot).
+  Definition enum1 : filelist := [(A_TMPL, SRC); (B_TMPL, SRC); (B_YAML, STATIC)].
+  Definition enum2 : filelist := [(B_TMPL, SRC); (B_YAML, STATIC); (A_TMPL, SRC)].
 End Witness.
 
-(** * Second witness: the output of `c.yaml.gotmpl.gotmpl` is itself named like a template and is
-    inserted into the map while it is ranged over; Go may or may not produce the new entry. If it is
-    produced, ExecuteTemplate fails because no template of that name was parsed (template.go:38-48
-    ran before). *)
+(** * Second witness: the output of `c.yaml.gotmpl.gotmpl` is itself named like a template. Before
+    the fix it was inserted into the map while that was ranged over; Go may or may not produce the
+    new entry, and if it did ExecuteTemplate failed because no template of that name had been
+    parsed. *)
 Module InsertWitness.
   Definition CC_TMPL : N := 1.  (* c.yaml.gotmpl.gotmpl *)
   Definition C_TMPL : N := 2.   (* c.yaml.gotmpl, created by the loop *)
@@ -80,4 +143,7 @@ Module InsertWitness.
   Definition files : fmap := fun k => if k =? CC_TMPL then Some 30 else None.
   Definition order_skipped : list N := [CC_TMPL].
   Definition order_produced : list N := [CC_TMPL; C_TMPL].
+
+  Definition exec_fixed (p : N) (_ : filelist) : option N := if p =? CC_TMPL then Some 20 else None.
+  Definition enum : filelist := [(CC_TMPL, 30)].
 End InsertWitness.
